@@ -2,6 +2,7 @@ import CookModel.Num.Convert
 import CookModel.Lemmas.ArithRat
 import CookModel.Lemmas.Convert
 import CookModel.Lemmas.ConvertExample
+import CookModel.Lemmas.ConvertMore
 /-
   C09  Unit conversion preserves the physical amount.
 
@@ -245,6 +246,119 @@ theorem C09_recipe_quantity_dichotomy {c : Converter Rat} (hc : c.Sound) (to : S
   | failed e he => exact Or.inr ⟨e, rfl, rfl, he⟩
   | converted q' u nu hu hr hbest _ _ => exact Or.inl ⟨rfl, u, nu, hu, hr, hbest to rfl⟩
 
+/-! ## additions of the clause audit (notes/audit-C09.md) -/
+
+/-- every shipped unit that has a standard definition carries exactly the standard offset
+    (0 everywhere, 273.15 for °C, 459.67 for °F); decided on the generated table -/
+theorem C09_shipped_offsets_exact : offsetsExact (Converter.bundled Rat).allUnits = true := by
+  decide +kernel
+
+/-- "Yields the amount implied by the units' standard definitions", as a statement about converted
+    values rather than about the table: for any two shipped units `a`, `b` of one physical quantity
+    that have a standard definition and every value `v`, the conversion is defined and its result
+    differs from what the standard definitions give (`stdConvert`, offset-aware) by at most 2·10⁻⁶
+    of that result counted from the absolute zero of `b`'s scale — i.e. 2·10⁻⁶ relative for every
+    unit without offset, 2·10⁻⁶ of the absolute temperature for °C/°F. -/
+theorem C09_convert_close_to_standard {a b : Unit Rat}
+    (ha : a ∈ (Converter.bundled Rat).allUnits) (hb : b ∈ (Converter.bundled Rat).allUnits)
+    (hq : a.pq = b.pq) {sa sb : Rat × Rat} (hsa : stdOf a = some sa) (hsb : stdOf b = some sb)
+    (v : Rat) :
+    ∃ w, convertF64 v a b = some w ∧
+      Rat.abs (w - stdConvert v sa sb) * 1000000 ≤ Rat.abs (stdConvert v sa sb + sb.2) * 2 :=
+  cvm_convert_close_std C09_shipped_matches_standard C09_shipped_offsets_exact ha hb hq
+    (C09_bundled_sound.id_inj _ _ ha hb) hsa hsb v
+
+/-- There and back at the level of quantities (`ScaledQuantity::convert` to the unit with key `kb`,
+    then to a key `ka` of the original unit), numbers and ranges alike: the quantity ends in the
+    original unit and states the original numbers (value by value, fraction error included — the
+    representation may have become a fraction). -/
+theorem C09_quantity_roundtrip {c : Converter Rat} (hc : c.Sound) (q q1 q2 : SQuantity Rat)
+    (ka kb : Str) (u : Unit Rat) (hu : unitInfo c q = some u) (hka : c.findUnit ka = some u)
+    (h1 : convertImpl c q (.unit (.key kb)) = (q1, .ok ()))
+    (h2 : convertImpl c q1 (.unit (.key ka)) = (q2, .ok ())) :
+    unitInfo c q2 = some u ∧ q2.value.parts = q.value.parts := by
+  obtain ⟨u', nb, hu', _, r1⟩ := cvm_convert_key hc h1
+  obtain ⟨u1, nu2, hu1, hka', r2⟩ := cvm_convert_key hc h2
+  rw [hu] at hu'; cases hu'
+  rw [r1.info] at hu1; cases hu1
+  rw [hka] at hka'; cases hka'
+  exact ⟨r2.info, cvm_restated_same hc (r1.trans r2) (Restated.refl hu)⟩
+
+/-- Via a third unit at the level of quantities: converting to `km` and then to `kb` ends in the
+    same unit and states the same numbers as converting to `kb` directly. -/
+theorem C09_quantity_via_third {c : Converter Rat} (hc : c.Sound) (q q1 q2 q3 : SQuantity Rat)
+    (km kb : Str)
+    (h1 : convertImpl c q (.unit (.key km)) = (q1, .ok ()))
+    (h2 : convertImpl c q1 (.unit (.key kb)) = (q2, .ok ()))
+    (h3 : convertImpl c q (.unit (.key kb)) = (q3, .ok ())) :
+    unitInfo c q2 = unitInfo c q3 ∧ q2.value.parts = q3.value.parts := by
+  obtain ⟨u, nm, hu, _, r1⟩ := cvm_convert_key hc h1
+  obtain ⟨u1, nb, hu1, hkb, r2⟩ := cvm_convert_key hc h2
+  obtain ⟨u', nb', hu', hkb', r3⟩ := cvm_convert_key hc h3
+  rw [hu] at hu'; cases hu'
+  rw [r1.info] at hu1; cases hu1
+  rw [hkb] at hkb'; cases hkb'
+  exact ⟨r2.info.trans r3.info.symm, cvm_restated_same hc (r1.trans r2) r3⟩
+
+/-- Totality of the first clause: a numeric or range quantity in a known unit `u` converts to
+    every known unit `t` of the same physical quantity (there is no other way to fail than the ones
+    listed in `C09_failures_unchanged`), and the result is in `t` with the same amounts. -/
+theorem C09_convert_between_known_succeeds {c : Converter Rat} (hc : c.Sound) (q : SQuantity Rat)
+    (u t : Unit Rat) (k : Str) (hu : unitInfo c q = some u) (hv : q.value.isText = false)
+    (hk : c.findUnit k = some t) (hq : u.pq = t.pq) :
+    ∃ q', convertImpl c q (.unit (.key k)) = (q', .ok ()) ∧ unitInfo c q' = some t ∧
+      q'.value.parts.map (fun x => amount x t) = q.value.parts.map (fun x => amount x u) := by
+  obtain ⟨q', h, hr⟩ := cvm_convert_unit_succeeds hc q u t k hu hv hk hq
+  exact ⟨q', h, hr.info, hr.amounts⟩
+
+/-- every best list of the shipped converter (five quantities × two systems) is non-empty -/
+theorem C09_bundled_best_nonempty : bestListsNonempty (Converter.bundled Rat) = true := by
+  decide +kernel
+
+/-- For both target systems: with the shipped converter, converting a numeric or range quantity in
+    a known unit to a system always succeeds, in a unit of that system's list for the quantity,
+    with the same amounts. (For any sound converter it succeeds iff that list is non-empty:
+    `cvm_convert_best_succeeds`, `C09_failures_unchanged`.) -/
+theorem C09_convert_to_system_succeeds (q : SQuantity Rat) (u : Unit Rat) (s : System)
+    (hu : unitInfo (Converter.bundled Rat) q = some u) (hv : q.value.isText = false) :
+    ∃ q' nu, convertImpl (Converter.bundled Rat) q (.best s) = (q', .ok ()) ∧
+      unitInfo (Converter.bundled Rat) q' = some nu ∧ nu.pq = u.pq ∧
+      nu ∈ (((Converter.bundled Rat).best u.pq).conversions s).unitsOf ∧
+      q'.value.parts.map (fun x => amount x nu) = q.value.parts.map (fun x => amount x u) := by
+  obtain ⟨q', nu, h, hr, hl⟩ := cvm_convert_best_succeeds C09_bundled_sound q u s hu hv
+    (cvm_bestListsNonempty C09_bundled_best_nonempty _ _)
+  exact ⟨q', nu, h, hr.info, hr.pq, hl, hr.amounts⟩
+
+/-- `ScaledRecipe::convert` on a whole recipe, position by position, for a sound converter: every
+    ingredient and timer keeps all its other fields and its quantity is `QuantityConverted` (absent
+    stays absent; present is either restated with the same amounts in a unit of the target
+    system's list, or left exactly as it was for a documented reason); the same for every inline
+    quantity; sections and cookware are untouched; and the returned errors are exactly the errors
+    of the visited quantities in visiting order, at most one each. -/
+theorem C09_recipe_convert_every_quantity {c : Converter Rat} (hc : c.Sound) (to : System)
+    (r : ScaledRecipe Rat) :
+    (recipeConvert c to r).1.sections = r.sections ∧
+    (recipeConvert c to r).1.cookware = r.cookware ∧
+    (∀ (k : Nat) i, r.ingredients[k]? = some i → ∃ q',
+      (recipeConvert c to r).1.ingredients[k]? = some { i with quantity := q' } ∧
+      QuantityConverted c to i.quantity q') ∧
+    (∀ (k : Nat) t, r.timers[k]? = some t → ∃ q',
+      (recipeConvert c to r).1.timers[k]? = some { t with quantity := q' } ∧
+      QuantityConverted c to t.quantity q') ∧
+    (∀ (k : Nat) q, r.inlineQuantities[k]? = some q → ∃ q',
+      (recipeConvert c to r).1.inlineQuantities[k]? = some q' ∧
+      QuantityConverted c to (some q) (some q')) ∧
+    (recipeConvert c to r).2 = (recipeQuantities r).flatMap (fun q => convErrors c to (some q)) ∧
+    (∀ q, (convErrors c to q).length ≤ 1) := by
+  obtain ⟨hs, hcw, hi, ht, hq, _⟩ := recipeConvert_spec c to r
+  refine ⟨hs, hcw, ?_, ?_, ?_, cvm_recipe_errors c to r, cvm_convErrors_length c to⟩
+  · intro k i hk
+    exact ⟨convResult c to i.quantity, by rw [hi, List.getElem?_map, hk]; rfl, cvm_convResult_converted hc to _⟩
+  · intro k t hk
+    exact ⟨convResult c to t.quantity, by rw [ht, List.getElem?_map, hk]; rfl, cvm_convResult_converted hc to _⟩
+  · intro k q hk
+    exact ⟨(convertImpl c q (.best to)).1, by rw [hq, List.getElem?_map, hk]; rfl, cvm_convResult_converted hc to (some q)⟩
+
 /-! ## non-vacuity
 
   Concrete runs of the model on a small hand-written converter (`Ex.conv`, Lemmas/ConvertExample.lean:
@@ -284,6 +398,18 @@ example : (match convertImpl Ex.conv ⟨.number (.regular 1), some ['k','g']⟩ 
 /-- 100 °C = 212 °F exactly with the standard definitions -/
 example : (match Ex.conv.convert (.number 100) (.key ['C']) (.unit (.key ['F'])) with
     | .ok (.number x, _) => decide (x = 212)
+    | _ => false) = true := by decide +kernel
+
+/-- the standard-definition bound is about real pairs: gram and pound of the shipped table both have
+    a standard definition, and 1 lb by the standard definitions is 453.59237 g -/
+example : stdConvert 1 (stdLb, 0) (1, 0) = 45359237 / 100000 := by decide +kernel
+
+/-- there and back on the example converter: 1 kg → lb → kg states 1 again -/
+example : (match convertImpl Ex.conv ⟨.number (.regular 1), some ['k','g']⟩ (.unit (.key ['l','b'])) with
+    | (q1, .ok _) =>
+      (match convertImpl Ex.conv q1 (.unit (.key ['k','g'])) with
+       | (q2, .ok _) => decide (q2.value.parts = [1] ∧ q2.unit = some ['k','g'])
+       | _ => false)
     | _ => false) = true := by decide +kernel
 
 end Cook
